@@ -40,7 +40,10 @@ func Encode(n datamodel.Node, w io.Writer) error {
 	// Shell out directly to generic inspection path.
 	//  (There's not really any fastpaths of note for json.)
 	// Write another function if you need to tune encoding options about whitespace.
-	return dagjson.Marshal(n, rfmtjson.NewEncoder(w, rfmtjson.EncodeOptions{
+	// The refmt json encoder does not check the results of its writes,
+	// so remember the first write error here and report it.
+	ew := &errTrackingWriter{w: w}
+	err := dagjson.Marshal(n, rfmtjson.NewEncoder(ew, rfmtjson.EncodeOptions{
 		Line:   []byte{'\n'},
 		Indent: []byte{'\t'},
 	}), dagjson.EncodeOptions{
@@ -48,4 +51,26 @@ func Encode(n datamodel.Node, w io.Writer) error {
 		EncodeBytes: false,
 		MapSortMode: codec.MapSortMode_None,
 	})
+	if err != nil {
+		return err
+	}
+	return ew.err
+}
+
+// errTrackingWriter passes writes through until one fails,
+// then remembers that error and refuses further writes.
+type errTrackingWriter struct {
+	w   io.Writer
+	err error
+}
+
+func (ew *errTrackingWriter) Write(p []byte) (int, error) {
+	if ew.err != nil {
+		return 0, ew.err
+	}
+	n, err := ew.w.Write(p)
+	if err != nil {
+		ew.err = err
+	}
+	return n, err
 }
